@@ -102,19 +102,32 @@ class LockModel(Model):
         if root == 'one':
             self.store().add_graph('G1', GOOD.copy())
             self._fresh_lock()
+        self._root, self._hist = root, []
 
     def _fresh_lock(self):
         self.lock = CountingLock()
         self.store().lock = self.lock
 
+    # a state is its history (replayed on a store freshly built by the library's constructor); copies of the store's
+    # containers are used only for the one-step allocation probes of the invariant
     def snapshot(self):
-        return world.snapshot_shared() if self.flavour == 'shared' else world.snapshot_disjoint()
+        return ('H', self._root, tuple(self._hist))
+
+    def fast_snapshot(self):
+        return ('C', world.snapshot_shared() if self.flavour == 'shared' else world.snapshot_disjoint(), tuple(self._hist))
 
     def restore(self, snap):
-        if self.flavour == 'shared':
-            world.restore_shared(snap)
+        if snap[0] == 'H':
+            hist = list(snap[2])
+            self.build_root(snap[1])
+            for ev in hist:
+                self.apply(ev)
         else:
-            world.restore_disjoint(snap)
+            if self.flavour == 'shared':
+                world.restore_shared(snap[1])
+            else:
+                world.restore_disjoint(snap[1])
+            self._hist = list(snap[2])
         self._fresh_lock()
 
     def canon(self):
@@ -139,6 +152,7 @@ class LockModel(Model):
         return ev
 
     def apply(self, ev):
+        self._hist = getattr(self, '_hist', []) + [ev]
         st = self.store()
         k = ev[0]
         payload = {'good': GOOD, 'good2': GOOD2, 'noid': NOID, 'none': None}
@@ -199,7 +213,7 @@ class LockModel(Model):
         v = []
         fl = self.flavour
         pre = self._node_sets()
-        snap = self.snapshot()
+        snap = self.fast_snapshot()
         for gid in sorted((g for g in pre if isinstance(g, str)), key=repr):
             out = self.apply(('add_blank', gid))
             post = self._node_sets()
